@@ -738,6 +738,7 @@ func (s *consumerGroupSession) heartbeatLoop() {
 
 	retries := s.parent.config.Metadata.Retry.Max
 	for {
+		verifGate("cg.heartbeat", s.memberID, s.generationID)
 		coordinator, err := s.parent.client.Coordinator(s.parent.groupID)
 		if err != nil {
 			if retries <= 0 {
